@@ -116,10 +116,13 @@ Bytes hostile_query_name(Rng &r, uint16_t id, const std::string &name, uint16_t 
 }
 
 // tunnel commands with adversarial arguments; `name` is a raw label string (may contain any byte)
-Bytes hostile_query_command(Rng &r, const std::string &domain, int nusers)
+Bytes hostile_query_command(Rng &r, const std::string &domain, int nusers, int own_uid)
 {
 	static const char cmds[] = "vVlLiIzZsSoOyYrRnNpP0123456789abcdefABCDEFwWxX";
 	char c = cmds[r.range(0, sizeof(cmds) - 2)];
+	bool own = own_uid >= 0 && own_uid < 16 && r.chance(0.85);
+	if (own && isxdigit((unsigned char)c)) c = (r.chance(0.8) ? "0123456789abcdef" : "0123456789ABCDEF")[own_uid];
+	if (own && r.chance(0.3)) c = (r.chance(0.8) ? "0123456789abcdef" : "0123456789ABCDEF")[own_uid];      // an insider mostly sends data
 	Bytes body;
 	body.push_back((uint8_t)c);
 	size_t alen;
@@ -141,6 +144,7 @@ Bytes hostile_query_command(Rng &r, const std::string &domain, int nusers)
 		case 2: args[0] = (uint8_t)r.range(0x80, 0xff); break;
 		default: break;
 		}
+		if (own) args[0] = (uint8_t)b32chr(tolower((unsigned char)c) == 'r' ? ((own_uid << 1) | (int)r.range(0, 1)) : own_uid);
 	}
 	char lc = (char)tolower((unsigned char)c);
 	if ((lc == 'v' || lc == 'l' || lc == 'n' || lc == 'p') && r.chance(0.7)) {
@@ -150,6 +154,7 @@ Bytes hostile_query_command(Rng &r, const std::string &domain, int nusers)
 		else if (lc == 'l') { raw.push_back((uint8_t)(r.chance(0.7) ? r.range(0, 17) : r.range(0, 255))); Bytes x = r.bytes(r.range(0, 24)); raw.insert(raw.end(), x.begin(), x.end()); }
 		else if (lc == 'n') { raw.push_back((uint8_t)(r.chance(0.7) ? r.range(0, 17) : r.range(0, 255))); uint16_t f = (uint16_t)(r.chance(0.5) ? r.range(0, 3) : r.range(0, 65535)); raw.push_back(f >> 8); raw.push_back(f & 255); Bytes x = r.bytes(r.range(0, 3)); raw.insert(raw.end(), x.begin(), x.end()); }
 		else { raw.push_back((uint8_t)(r.chance(0.7) ? r.range(0, 17) : r.range(0, 255))); Bytes x = r.bytes(r.range(0, 6)); raw.insert(raw.end(), x.begin(), x.end()); }
+		if (own && lc != 'v' && !raw.empty()) raw[0] = (uint8_t)own_uid;
 		std::string e = codec_encode(5, raw);
 		args.assign(e.begin(), e.end());
 	}
@@ -157,6 +162,12 @@ Bytes hostile_query_command(Rng &r, const std::string &domain, int nusers)
 		// data: 3 header chars + cmc + payload in some alphabet, long
 		Bytes h = rnd_alpha(r, 4, r.chance(0.8) ? 0 : 3);
 		Bytes pl = rnd_alpha(r, r.range(0, 220), (int)r.range(0, 4));
+		if (own && r.chance(0.5)) {
+			// a well-formed fragment header (so that the reassembly really runs): seq/frag/last chosen freely, junk or compressed payload
+			int us = (int)r.range(0, 7), uf = (int)r.range(0, 15), ds = (int)r.range(0, 7), df = (int)r.range(0, 15), last = (int)r.range(0, 1);
+			h[0] = (uint8_t)b32chr((us << 2) | (uf >> 2)); h[1] = (uint8_t)b32chr(((uf & 3) << 3) | ds); h[2] = (uint8_t)b32chr((df << 1) | last);
+			if (r.chance(0.5)) { Bytes x((size_t)r.range(1, 70000), (uint8_t)r.range(0, 255)); Bytes z = z_compress(x); if (z.size() > 120) z.resize(120); std::string e = codec_encode(5, z); pl.assign(e.begin(), e.end()); }
+		}
 		args = h; args.insert(args.end(), pl.begin(), pl.end());
 	}
 	body.insert(body.end(), args.begin(), args.end());
